@@ -329,21 +329,28 @@ func (fr *Frame) builtin(x *ssa.Call, name string, args []Value) Value {
 		}
 		if bd, isBuf := args[0].(BufRef); isBuf {
 			if _, conc := it.bufConc(bd); !conc {
-				// copy into a buffer of symbolic length: the source must provably fit, and replaces a prefix
+				// copy into (a view of) a buffer of symbolic length: min(len(dst), len(src)) bytes replace its start
 				src, okS := it.sliceSegs(args[1])
 				if !okS {
 					it.abortf("copy from %s into a buffer of symbolic length in %s", show(args[1]), fr.fn)
 				}
-				cur := bd.C.Val.(AbsSlice)
+				dl := it.lenTerm(bd)
 				sl := it.ApplyTerm(AbsSlice{Segs: src}.Length())
-				if lo, _ := it.ApplyTerm(cur.Length()).Sub(sl).Bounds(); lo.Sign() < 0 {
-					it.abortf("copy of %s bytes into a buffer of %s bytes in %s", sl, cur.Length(), fr.fn)
+				if dl == nil {
+					it.abortf("copy into a buffer of unknown length in %s", fr.fn)
 				}
-				_, right, okR := it.splitSegs(cur.Segs, sl)
-				if !okR {
-					it.abortf("copy into the middle of a buffer segment in %s", fr.fn)
+				if lo, _ := dl.Sub(sl).Bounds(); lo.Sign() < 0 {
+					// the source may be longer than the destination: only when provably so, and then truncated
+					if l2, _ := sl.Sub(dl).Bounds(); l2.Sign() < 0 {
+						it.abortf("copy of %s bytes into a buffer of %s bytes in %s", sl, dl, fr.fn)
+					}
+					head, _, okT := it.splitSegs(src, dl)
+					if !okT {
+						it.abortf("copy truncates its source inside a segment in %s", fr.fn)
+					}
+					src, sl = head, dl
 				}
-				it.setCell(bd.C, AbsSlice{Segs: normSegs(append(append([]Seg{}, src...), right...))})
+				it.bufWrite(bd.C, bd.bufOff(), src, fr.fn)
 				return termValue(sl)
 			}
 		}
@@ -816,6 +823,22 @@ func (it *Interp) stdlib(fr *Frame, x *ssa.Call, fn *ssa.Function, args []Value)
 	case "encoding/hex.Decode":
 		// hex.Decode(make([]byte, hex.DecodedLen(len(h))), []byte(h)) is hex.DecodeString(h)
 		if src, ok := it.rd(args[1]).(AbsSlice); ok && len(src.Segs) == 1 && strings.HasPrefix(src.Segs[0].Name, "str:") {
+			// into a buffer of fixed size, from a string whose length is fixed on this path
+			if sl, isC := it.ApplyTerm(src.Segs[0].Len).IsConst(); isC && sl.Bit(0) == 0 {
+				if d, okD := it.asSlice(args[0]); okD {
+					if dl, isD := it.ApplyTerm(d.Len).IsConst(); isD {
+						n := int(sl.Int64() / 2)
+						name := strings.TrimPrefix(src.Segs[0].Name, "str:")
+						if int(dl.Int64()) < n {
+							panic(&goPanic{val: KStr("index out of range (hex.Decode into a short buffer)"), fn: fr.fn, pos: x.Pos()})
+						}
+						for i := 0; i < n; i++ {
+							it.storeValue(d.Arr.Kids[d.Lo+i], TermV{SymByte(fmt.Sprintf("unhex(%s)[%d]", name, i))})
+						}
+						return Tuple{KInt{big.NewInt(int64(n))}, SymIface{IsNil: SymBool("hexvalid(" + name + ")"), Name: "hex error"}}
+					}
+				}
+			}
 			if bd, isBuf := args[0].(BufRef); isBuf {
 				name := strings.TrimPrefix(src.Segs[0].Name, "str:")
 				want := WOp(64, "shr", it.ApplyTerm(src.Segs[0].Len), TInt(1))
@@ -1027,9 +1050,15 @@ func (it *Interp) stdlib(fr *Frame, x *ssa.Call, fn *ssa.Function, args []Value)
 		}
 	case "sync.Pool.Put":
 		return nil
-	case "bytes.Join":
-		// concatenation of byte strings with an empty separator
-		if sep, okS := it.sliceSegs(args[1]); okS && len(sep) == 0 {
+	case "bytes.Join", "slices.Concat":
+		// concatenation of byte strings (bytes.Join with an empty separator)
+		sepOK := key == "slices.Concat"
+		if !sepOK {
+			if sep, okS := it.sliceSegs(args[1]); okS && len(sep) == 0 {
+				sepOK = true
+			}
+		}
+		if sepOK {
 			if sv, okV := it.rd(args[0]).(SliceV); okV {
 				if n, isC := it.ApplyTerm(sv.Len).IsConst(); isC {
 					var segs []Seg
@@ -1072,6 +1101,41 @@ func (it *Interp) stdlib(fr *Frame, x *ssa.Call, fn *ssa.Function, args []Value)
 			return KBool(true)
 		}
 	case "crypto/subtle.XORBytes":
+		if bd, isBuf := args[0].(BufRef); isBuf {
+			if _, conc := it.bufConc(bd); !conc {
+				a, ok1 := it.asSlice(args[1])
+				b, ok2 := it.asSlice(args[2])
+				if ok1 && ok2 {
+					al, c1 := it.ApplyTerm(a.Len).IsConst()
+					bl, c2 := it.ApplyTerm(b.Len).IsConst()
+					if c1 && c2 {
+						n := int(al.Int64())
+						if int(bl.Int64()) < n {
+							n = int(bl.Int64())
+						}
+						if dl := it.lenTerm(bd); dl != nil {
+							if lo, _ := dl.Sub(TInt(int64(n))).Bounds(); lo.Sign() >= 0 {
+								var bs []*Term
+								good := true
+								for i := 0; i < n; i++ {
+									ta, oka := asTerm(it.loadValue(a.Arr.Kids[a.Lo+i]))
+									tb, okb := asTerm(it.loadValue(b.Arr.Kids[b.Lo+i]))
+									if !oka || !okb {
+										good = false
+										break
+									}
+									bs = append(bs, wXor(ta, tb, 8))
+								}
+								if good {
+									it.bufWrite(bd.C, bd.bufOff(), []Seg{{Bytes: bs}}, fr.fn)
+									return KInt{big.NewInt(int64(n))}
+								}
+							}
+						}
+					}
+				}
+			}
+		}
 		d, ok0 := it.asSlice(args[0])
 		a, ok1 := it.asSlice(args[1])
 		b, ok2 := it.asSlice(args[2])
@@ -1136,6 +1200,9 @@ func (it *Interp) stdlib(fr *Frame, x *ssa.Call, fn *ssa.Function, args []Value)
 		}
 		if s, ok := it.asSlice(args[1]); ok {
 			if l, isC := it.ApplyTerm(s.Len).IsConst(); isC {
+				if it.Cfg.LoopUnroll > 0 && it.nreads > it.Cfg.LoopUnroll {
+					it.abortf("loop-cap: more than %d entropy reads on one path", it.Cfg.LoopUnroll+1)
+				}
 				it.nreads++
 				for i := 0; i < int(l.Int64()); i++ {
 					it.storeValue(s.Arr.Kids[s.Lo+i], TermV{SymByte(fmt.Sprintf("entropy#%d[%d]", it.nreads, i))})
